@@ -3,6 +3,7 @@ package scen
 import (
 	"encoding/json"
 	"fmt"
+	"unsafe"
 
 	"github.com/openacid/low/bitmap"
 	"github.com/openacid/low/bitstr"
@@ -66,6 +67,7 @@ type rOutcome struct {
 	bss   [][]byte
 	pan   interface{}
 	fault uintptr // write fault inside the read-only arena (0: none)
+	alias bool    // a string result shares memory with a []byte input
 	hash  uint64  // content hash at return time
 }
 
@@ -227,6 +229,11 @@ func execOp(w *world, op ROp, viaValue bool, poison uint64) (out rOutcome) {
 	poisonStack(poison)
 	out = execOpInner(w, op, viaValue, poison)
 	out.hash = out.contentHash()
+	for _, s := range out.strs {
+		if len(s) > 0 && w.arena.br.contains(uintptr(unsafe.Pointer(unsafe.StringData(s)))) {
+			out.alias = true
+		}
+	}
 	return
 }
 
@@ -594,10 +601,13 @@ func execSigbits(w *world, op ROp) (out rOutcome) {
 
 // ---- plan generation --------------------------------------------------------
 
-func genReaders(seed uint64, allowFmt bool, cold bool) *ReadersPlan {
+func genReaders(seed uint64, allowFmt bool, cold bool, deepTier bool) *ReadersPlan {
 	r := engine.NewPRNG(seed)
 	p := &ReadersPlan{World: genWorldSpec(r)}
 	nt := 2 + r.Intn(3)
+	if deepTier && r.Chance(1, 5) {
+		nt = 4 + r.Intn(3) // thorough tier: up to 6 reader tasks
+	}
 	p.RefAfter = r.Chance(1, 4) || cold
 	// a run concentrates on a few functions and objects so that tasks really
 	// collide on the same data
@@ -622,6 +632,9 @@ func genReaders(seed uint64, allowFmt bool, cold bool) *ReadersPlan {
 	}
 	for t := 0; t < nt; t++ {
 		nops := 5 + r.Intn(36)
+		if deepTier && r.Chance(1, 5) {
+			nops = 40 + r.Intn(60)
+		}
 		if p.RefAfter {
 			nops = 30 + r.Intn(11)
 		}
